@@ -49,6 +49,9 @@ MonInit(Paths) == [kern |-> [p \in Paths |-> Absent], dur |-> [p \in Paths |-> A
                    done |-> [p \in Paths |-> Absent],   \* last value whose set has returned
                    inflight |-> "", want |-> Absent,
                    ginfl |-> {},                          \* keys with a group of concurrent sets in flight
+                   torn |-> {},                           \* keys whose set was interrupted (the process was killed inside
+                                                          \* it) and that have not been set successfully since: the interrupted
+                                                          \* set may have affected them, and only them
                    synced |-> [p \in Paths |-> FALSE],    \* the kernel content of p has been fsynced (under any name)
                    bad |-> "ok"]
 
@@ -57,12 +60,14 @@ Images(m, p) == {m.dur[p]} \cup m.loose[p]
 \* every key other than the one being written reads its last completed value in every crash image;
 \* the key being written is unconstrained until its set returns
 Durability(m) ==
-  \A p \in DOMAIN m.kern : (p # m.inflight /\ p \notin m.ginfl) => Images(m, p) = {m.done[p]}
+  \A p \in DOMAIN m.kern : (p # m.inflight /\ p \notin m.ginfl /\ p \notin m.torn) => Images(m, p) = {m.done[p]}
 
 InDir(e, p) == \E k \in 1..Len(e.files) : e.files[k] = p      \* the recorder lists the files directly inside the synced directory
 
 Apply(m, e) ==
-  CASE e.ev = "begin"  -> [m EXCEPT !.inflight = e.key, !.want = <<e.v, e.size>>]
+  CASE e.ev = "begin"  -> [m EXCEPT !.inflight = e.key, !.want = <<e.v, e.size>>,
+                                    \* a begin while another set never returned: that set was interrupted
+                                    !.torn = IF m.inflight # "" /\ m.inflight # e.key THEN @ \cup {m.inflight} ELSE @]
     [] e.ev = "rename" -> [m EXCEPT !.kern[e.to] = m.kern[e.path], !.kern[e.path] = Absent,
                                     !.synced[e.to] = m.synced[e.path], !.synced[e.path] = FALSE,
                                     !.loose[e.to] = @ \cup Images(m, e.path) \cup {m.kern[e.path], m.kern[e.to]},
@@ -79,7 +84,7 @@ Apply(m, e) ==
                                     !.loose[e.path] = @ \cup {<<e.v, n>> : n \in from..e.upto}
                                                         \cup (IF old = Absent THEN {} ELSE {old})]
     [] e.ev = "fsync"  -> [m EXCEPT !.dur[e.path] = m.kern[e.path], !.loose[e.path] = {}, !.synced[e.path] = TRUE]
-    [] e.ev = "return" -> [m EXCEPT !.done[e.key] = m.want, !.inflight = ""]
+    [] e.ev = "return" -> [m EXCEPT !.done[e.key] = m.want, !.inflight = "", !.torn = @ \ {e.key}]
     [] e.ev = "gbegin" -> [m EXCEPT !.ginfl = @ \cup {e.key}]
     [] e.ev = "greturn" -> [m EXCEPT !.done[e.key] = <<e.v, e.size>>, !.ginfl = @ \ {e.key}]
     [] OTHER -> m          \* mkdir, close: no effect on file contents in this model
